@@ -195,8 +195,8 @@ def programs_nf(tier, seed):
                   ("join_async", (2, 1), 1, True, False), ("join_async", (2, 2), 1, True, True), ("try_join_async", (2, 1), 1, True, False), ("join_async", (1, 2), 1, True, False),
                   ("join_async", (1,), 2, False, False), ("join_async", (2,), 1, False, False),
                   ("join_async", (2, 2), 1, True, "athen"), ("join_async_spawn", (2, 2), 1, True, "athen"), ("try_join_async", (2, 2), 1, True, False), ("join_async", (1, 2, 2), 1, True, "athen"),
-                  ("join_async", (2, 2), 1, True, False),
-                  ("join_async", (10,), 1, True, True), ("try_join_async", (9, 10), 1, True, True), ("join_async_spawn", (11, 9), 1, True, True), ("join_async", (12, 3, 12), 1, True, True)]
+                  # (measured: (2, 2) with real pending points in both later steps exceeds the 12 GB cap; (11, 9) under join_async_spawn! does not finish in 1200 s)
+                  ("join_async", (10,), 1, True, True), ("try_join_async", (9, 10), 1, True, True), ("join_async", (12, 3, 12), 1, True, True)]
         plan_f = [("join_async", 2, False), ("try_join_async", 2, False), ("join_async", 3, True), ("try_join_async", 3, True)]
     for macro, prof, gates, heavy, cheap in plan_n:
         i += 1
